@@ -70,6 +70,18 @@ def better_origin(candidate: object, fallback: object) -> object:
         return fallback
 
 
+def own_frame(origin: object) -> Optional[types.FrameType]:
+    """Returns the frame that belongs to *origin* if it is a coroutine object,
+    generator iterator, or async generator iterator, else None."""
+    if isinstance(origin, types.CoroutineType):
+        return origin.cr_frame
+    if isinstance(origin, types.GeneratorType):
+        return origin.gi_frame
+    if isinstance(origin, types.AsyncGeneratorType):
+        return origin.ag_frame
+    return None
+
+
 class ExtractOptions(threading.local):
     with_contexts: bool = cast(bool, None)
     recurse_child_tasks: bool = cast(bool, None)
@@ -122,14 +134,10 @@ def extract_iter(
         ):
             origin, current, depth = to_unwrap.popleft()
             if isinstance(current, types.FrameType):
-                if not isinstance(
-                    origin,
-                    (
-                        types.CoroutineType,
-                        types.GeneratorType,
-                        types.AsyncGeneratorType,
-                    ),
-                ):
+                if own_frame(origin) is not current:
+                    # Only a generator-like object can be the origin, and only
+                    # of its own frame. (If it's running, then unwrapping it
+                    # produces the frames of everything it has called too.)
                     origin = None
                 current = Frame(pyframe=current, origin=origin)
             if isinstance(current, Frame):
